@@ -442,6 +442,49 @@ func (h *hist) emptyContainer(t *handle) (string, []model.Fld, *model.Node, bool
 	return strings.Join(segs, sep), c.fs, c.n, true
 }
 
+// listAddr finds a list below t whose address can be said as a name for the
+// history's separator (the target's own list part: name ""), or a free plain
+// name to start a list at. list is nil if there is nothing at the name yet.
+func (h *hist) listAddr(t *handle) (string, *model.Node, bool) {
+	type cand struct {
+		name string
+		n    *model.Node
+	}
+	var cs []cand
+	if len(t.n.A) > 0 {
+		cs = append(cs, cand{"", t.n})
+	}
+	var walk func(n *model.Node, segs []string)
+	walk = func(n *model.Node, segs []string) {
+		if len(segs) > 0 && n.IsSub() && len(n.A) > 0 {
+			cs = append(cs, cand{strings.Join(segs, h.sep), n})
+		}
+		if !n.IsSub() || len(segs) >= 2 || (h.sep == "" && len(segs) >= 1) {
+			return
+		}
+		for _, k := range n.SortedKeys() {
+			if h.sep == "" || !strings.Contains(k, h.sep) {
+				walk(n.D[k], append(append([]string{}, segs...), k))
+			}
+		}
+	}
+	walk(t.n, nil)
+	if len(cs) > 0 && h.r.Intn(4) > 0 {
+		c := cs[h.r.Intn(len(cs))]
+		return c.name, c.n, true
+	}
+	for _, k := range []string{"l", "b", "A"} {
+		v, present := t.n.D[k]
+		if !present {
+			return k, nil, true
+		}
+		if v.IsSub() {
+			return k, v, true
+		}
+	}
+	return "", nil, false
+}
+
 // holderOf returns the container holding the setting addressed by fs below root.
 func holderOf(root *model.Node, fs []model.Fld) (*model.Node, bool) {
 	if len(fs) == 1 {
